@@ -97,6 +97,20 @@ CLAIMED = {
         ref="§5 C11",
         note=TRUST + " hashstructure.Hash assumed collision-free; file system and encoding/json not modelled.",
         technique="contract-based deductive verification: WP/VC generation over go/ssa + SMT (z3/cvc5)"),
+    "C09": dict(
+        level="other",
+        text="Partial: proved for all inputs - term encoding (GetTermBytes/GetBytesTerm inverse on strings and non-NaN numbers), "
+             "entry/term/field/doc key builders and parsers inverse and scan prefixes exact (a term's prefix selects only that "
+             "term's entries), AddDocTx (writes exactly-recorded entry keys, invalidates counts, records the entry list, touches "
+             "only index keys), termGetCount (cached or exact recount = number of stored keys under the term prefix), RemoveDoc "
+             "(deletes the recorded entries and the document key in one transaction, counts before deleting). One known finding "
+             "(replacement leaves old entries). Not decided here: the sign-aware numeric scans (min/max/range/FieldNumbers), the "
+             "streaming query methods' output histories and the cross-operation history invariant that composes these contracts.",
+        ref="§5 C09",
+        note=TRUST + " Assumed: kvi interface contract (spec/kv.gvc), bytes.Join/Split/SplitN/HasPrefix and slicing axioms (spec/keys.smt2, "
+             "spec/idxkeys.smt2), finite-set counting axioms (spec/idxcount.smt2), Float64bits/BigEndian/Uvarint models (spec/ieee.smt2), "
+             "proto round trip of kvindex.Doc; terms, fields and ids are NUL-free.",
+        technique="contract-based deductive verification: WP/VC generation over go/ssa + SMT (z3/cvc5)"),
 }
 
 NOT_APPLICABLE = {
